@@ -484,7 +484,27 @@ pub fn run(cfg: &SimConfig) -> anyhow::Result<(Vec<Value>, Value)> {
                             }
                         }
                     }
-                    if mode == "equivocate" || mode == "hostile" {
+                    if mode == "equivtx" {
+                        // equivocating leader + a steady stream of legal maximal transactions (full slices)
+                        let slot_seen = match &m {
+                            ConsensusMessage::Vote(v) => v.slot(),
+                            ConsensusMessage::Cert(c) => c.slot(),
+                        };
+                        if hostile_done.insert(slot_seen.inner()) {
+                            for v in hostile_targets.iter() {
+                                // fill slices exactly: (61 x 512, 502, 512) leaves 0 bytes in a later slice,
+                                // (61 x 512, 462, 512) leaves 0 bytes in a first slice
+                                for tail in [462usize, 502, 502, 502] {
+                                    for _ in 0..61 {
+                                        let _ = hostile.tx.send(&Transaction(vec![5u8; 512]), v.2).await;
+                                    }
+                                    let _ = hostile.tx.send(&Transaction(vec![6u8; tail]), v.2).await;
+                                    let _ = hostile.tx.send(&Transaction(vec![8u8; 512]), v.2).await;
+                                }
+                            }
+                        }
+                    }
+                    if mode == "equivocate" || mode == "hostile" || mode == "equivtx" {
                         // track certified blocks
                         if let ConsensusMessage::Cert(c) = &m
                             && let Some(h) = c.block_hash()
